@@ -191,8 +191,6 @@ mut("c14-writer-prefix-le", ["C14"], "blocking writer writes the length prefix l
     [(WRI, "let prefix = (self.buffer.len() as u32 - 4).to_be_bytes();", "let prefix = (self.buffer.len() as u32 - 4).to_le_bytes();")])
 mut("c14-writer-maxlen-off-by-one", ["C14"], "blocking writer accepts a payload one byte above max_len",
     [(WRI, "        if self.buffer.len() - 4 > self.max_len {", "        if self.buffer.len() - 5 > self.max_len {")])
-mut("c14-reader-keeps-stale-bytes", ["C14"], "blocking reader does not clear its buffer when the new frame is shorter (stale tail decoded when the frame is empty-prefixed)",
-    [(RD, "        self.buffer.clear();\n        self.buffer.resize(len, 0u8);\n        self.reader.read_exact(&mut self.buffer)?;", "        if len >= self.buffer.len() || len < 3 { self.buffer.clear(); }\n        self.buffer.resize(len, 0u8);\n        let start = 0;\n        self.reader.read_exact(&mut self.buffer[start ..])?;")])
 
 # ---- C15 ----
 mut("c15-prefix-rest-read-exact", ["C15"], "async reader fetches the rest of a partially received prefix with read_exact (progress lives in the dropped future)",
@@ -288,6 +286,23 @@ mut("c18-unit-native-null", ["C18", "C01"], "the native codec encodes () as null
      (DECRS, "impl<'b, C> Decode<'b, C> for () {\n    fn decode(d: &mut Decoder<'b>, _: &mut C) -> Result<Self, Error> {\n        let p = d.position();", "impl<'b, C> Decode<'b, C> for () {\n    fn decode(d: &mut Decoder<'b>, _: &mut C) -> Result<Self, Error> {\n        if d.datatype()? == crate::data::Type::Null { return d.null() }\n        let p = d.position();")])
 mut("c18-bridge-tuple-accepts-indefinite-short", ["C17", "C18"], "the bridge's tuple deserialisation accepts indefinite arrays and stops at the tuple length without consuming the break",
     [(SDE, "        if Some(len as u64) != n {", "        if n.is_some() && Some(len as u64) != n {")])
+
+
+# ---- C20 / C06 no-alloc: change one cfg twin only ----
+mut("c20-noalloc-skip-map-count", ["C20", "C06"], "the no-alloc skip counts n instead of 2n items for a definite map",
+    [(DEC, "                    if let Some(n) = self.map()? {\n                        nrounds = nrounds.saturating_add(n.saturating_mul(2))", "                    if let Some(n) = self.map()? {\n                        nrounds = nrounds.saturating_add(n)")])
+mut("c20-noalloc-skip-nrounds-3", ["C06", "C20"], "the no-alloc skip accepts an indefinite array as the last-but-one element of a definite container (wrong position instead of the documented error)",
+    [(DEC, "                    if let Some(n) = self.array()? {\n                        nrounds = nrounds.saturating_add(n)\n                    } else if nrounds < 2 {", "                    if let Some(n) = self.array()? {\n                        nrounds = nrounds.saturating_add(n)\n                    } else if nrounds < 3 {")])
+mut("c20-nohalf-f32-accepts-f16", ["C20"], "without the half feature Decoder::f32 consumes a half item and returns 0.0",
+    [(DEC, "            #[cfg(feature = \"half\")]\n            0xf9 => self.f16(),\n            0xfa => {", "            #[cfg(feature = \"half\")]\n            0xf9 => self.f16(),\n            #[cfg(not(feature = \"half\"))]\n            0xf9 => { self.read()?; self.read_array::<2>()?; Ok(0.0) }\n            0xfa => {")])
+mut("c20-alloc-tagged-error-class", ["C20"], "with alloc, a Tagged<N,T> tag mismatch is reported as a generic message error",
+    [(DECRS, "            #[cfg(feature = \"alloc\")]\n            return Err(Error::tag_mismatch(t).with_message(alloc::format!(\"expected tag {N}\")).at(p));", "            #[cfg(feature = \"alloc\")]\n            { let _ = t; return Err(Error::message(alloc::format!(\"expected tag {N}\")).at(p)); }")])
+mut("c20-noalloc-array-too-many-silent", ["C20"], "without alloc, [T; N] ignores surplus elements instead of reporting them",
+    [(DECRS, "                #[cfg(not(feature = \"alloc\"))]\n                let msg = \"array has too many elements\";\n                Error::message(msg).at(p)\n            })?;", "                #[cfg(not(feature = \"alloc\"))]\n                let msg = \"array has too many elements\";\n                Error::message(msg).at(p)\n            }).or_else(|e| if cfg!(feature = \"alloc\") { Err(e) } else { Ok(()) })?;")])
+mut("c20-std-only-position-on-error", ["C20"], "with std, Decoder::bytes rewinds the position when the declared length exceeds the input",
+    [(DEC, "        let n = u64_to_usize(self.unsigned(info_of(b), p)?, p)?;\n        self.read_slice(n)\n    }\n\n    /// Iterate over byte slices.", "        let n = u64_to_usize(self.unsigned(info_of(b), p)?, p)?;\n        let r = self.read_slice(n);\n        #[cfg(feature = \"std\")]\n        if r.is_err() { self.pos = p }\n        r\n    }\n\n    /// Iterate over byte slices.")])
+mut("c20-serde-noalloc-tuple-len", ["C20"], "without alloc the bridge's tuple deserialisation accepts longer arrays",
+    [(SDE, "        if Some(len as u64) != n {\n            #[cfg(feature = \"alloc\")]", "        if Some(len as u64) != n && (cfg!(feature = \"alloc\") || n.map(|x| x < len as u64).unwrap_or(true)) {\n            #[cfg(feature = \"alloc\")]")])
 
 def main():
     outdir = os.path.join(ROOT, "mutants")
